@@ -3,7 +3,8 @@ import types
 import vlib
 
 ID = 'C05'
-LEAN_MODULES = ['TboxModel.C05.Props', 'TboxModel.C05.ReplayProofs', 'TboxModel.C05.PropsLife', 'TboxModel.C05.CabProofs']
+LEAN_MODULES = ['TboxModel.C05.Props', 'TboxModel.C05.ReplayProofs', 'TboxModel.C05.PropsLife', 'TboxModel.C05.CabProofs', 'TboxModel.C05.CabRefine',
+                'TboxModel.C05.InitFail']
 EXE = 'c05'
 MODE = 'trace'
 THEOREMS = ['Tbox.C05.C05_waiting_at_cleanup_never_runs', 'Tbox.C05.C05_cancel_running_noop', 'Tbox.C05.C05_execute_after_cleanup',
@@ -24,7 +25,14 @@ THEOREMS = ['Tbox.C05.C05_waiting_at_cleanup_never_runs', 'Tbox.C05.C05_cancel_r
             'Tbox.C05.C05_lifecycles_cleanup', 'Tbox.C05.C05_doing_only_held', 'Tbox.C05.C05_unissued_token', 'Tbox.C05.C05_stale_token_dead',
             'Tbox.C05.Cab.C05_cabinet_lockstep', 'Tbox.C05.Cab.C05_status_cabinet_eq_deques', 'Tbox.C05.Cab.C05_cancel_answers',
             'Tbox.C05.Cab.C05_pop_resolves', 'Tbox.C05.Cab.C05_forged_token', 'Tbox.C05.Cab.C05_cleanup_empties',
-            'Tbox.C05.Cab.C05_withdraw_restores', 'Tbox.C05.Cab.C05_cabinet_desync_counterexample']
+            'Tbox.C05.Cab.C05_withdraw_restores', 'Tbox.C05.Cab.C05_cabinet_desync_counterexample',
+            # round 7: the token layer REFINES the abstract queue (simulation, not only a per-step comparison)
+            'Tbox.C05.Cab.C05_cab_refines_model', 'Tbox.C05.Cab.C05_cab_run_refines', 'Tbox.C05.Cab.C05_cab_priority_fifo',
+            'Tbox.C05.Cab.C05_model_steps_are_abstract', 'Tbox.C05.Cab.C05_model_pop_is_abstract', 'Tbox.C05.Cab.C05_model_execute_is_abstract',
+            'Tbox.C05.Cab.C05_answers_ren', 'Tbox.C05.Cab.C05_cab_answers_are_models', 'Tbox.C05.Cab.C05_replay_lockstep_kept',
+            'Tbox.C05.Cab.C05_abs_unique', 'Tbox.C05.Cab.C05_abs_run_sorted',
+            # round 7: a failing thread creation inside a second initialize() (reinitF) reduces to an accepted initialize(k, max k 1) + cleanup()
+            'Tbox.C05.C05_failed_initialize_reduces', 'Tbox.C05.C05_failed_initialize_joins_all']
 SOURCES = ['modules/eventx/thread_pool.cpp', 'modules/eventx/work_thread.cpp'] + vlib.EVENT_SOURCES + vlib.BASE_SOURCES
 import os
 FLAVOUR = os.environ.get('C05_FLAVOUR', 'tsan')     # tsan in both tiers (fast enough); override only for experiments
@@ -47,7 +55,7 @@ TRUSTED = ['model lean/TboxModel/C05/Model.lean is hand-written from thread_pool
            'round 6: the replay runs across lifecycles (`execL`: an accepted initialize() after cleanup() is a `validL`-checked step; whole-`replay` soundness is the '
            'theorem C05_replay_steps_sound) and carries the token layer of Cab.lean (deques + cabinet + running set as the code has them) in lock-step with '
            'the abstract queue: after every replayed step sizes per level, cabinet size, running-set size and the cancel / status / pop answers of the two '
-           'layers are compared (model-internal class); the cabinet itself is trusted through the contract C08 proves (finite map, ids never reissued)',
+           'layers are compared (model-internal class; round 7: that they cannot differ is the simulation theorem C05_cab_refines_model / C05_cab_answers_are_models / C05_replay_lockstep_kept); the cabinet itself is trusted through the contract C08 proves (finite map, ids never reissued)',
            'std::mutex gives atomic critical sections; condition_variable::notify_all wakes every current waiter; spurious wake-ups allowed',
            'one atomic counter linearises the recorded events (stamps inside a critical section are ordered like the sections); the stamps of the step '
            'log are taken with memory_order_relaxed so that the log adds no happens-before edge ThreadSanitizer would honour; pthread_mutex_lock / '
@@ -57,7 +65,8 @@ ASSUMPTIONS = ['no API call overlaps cleanup() (the property quantifies over cal
                'and callbacks, cleanup() may not be called from a task body: a worker would join itself - std::system_error(EDEADLK) - outside the quantifier)',
                'task bodies terminate; fair scheduling of worker threads (needed for "cleanup terminates" on top of deadlock freedom)',
                'cabinet ids do not wrap (2^64 tasks); the cabinet itself is used through its contract (finite map, ids never reissued: the C08 theorems)',
-               'a second initialize() whose thread creation fails is driven on the real code only (no model step)',
+               'a second initialize() whose thread creation fails is replayed through the stand-in initialize(k, max k 1) + cleanup() '
+               '(exact by C05_failed_initialize_reduces as long as no task is submitted in between: none can be, the loop thread is inside the call and no task exists)',
                'a WorkThread constructed without a loop delivers a completion callback only when execute() is given a loop (no loop, no loop thread: '
                'the callback is dropped by the code and by the model alike)']
 RULE_OLD = ('cases = (pool min/max in {0..4}x{1..6} incl. invalid, or WorkThread) x 1-200 tasks (priorities -3..3, bodies 0-3 ms, callbacks) interleaved '
@@ -80,7 +89,7 @@ RULE = ('cases = (pool min/max in {0..4}x{1..6} incl. invalid, or WorkThread) x 
         'previous lifecycle queried and cancelled in the next), forged tokens derived from a live token (same id at another position, position + 2^32, id + 10^6, '
         'id 2^64-1, null id at a live position) and tokens of ANOTHER ThreadPool / WorkThread that issued more ids (must be not-found / 1, nothing may change), '
         'cancel / getTaskStatus of the task a worker has just popped and not yet started (holdpick), chains of tasks whose body and completion callback are ONE '
-        'std::function object resubmitted from inside its own callback; distinct = distinct op text')
+        'std::function object resubmitted from inside its own callback; round 7 family: pthread_create failing at a chosen creation inside an initialize() AFTER cleanup() (k-1 workers created, rolled back by the cleanup() the call runs itself, refused; refused calls in between; then an accepted initialize()); distinct = distinct op text')
 
 
 BOUNDARY_PRIOS = [-2147483648, -2147483647, -2147483646, -65537, -65536, -32769, -32768, -101, -3, -2, -1, 0, 1, 2, 3, 101, 32767, 32768,
@@ -187,6 +196,17 @@ def gen_lifecycles(rng, tier):
         if rng.random() < 0.12:
             ops.append('relife %d %d' % rng.choice([(3, 2), (0, 0), (-1, 2), (1, 0), (-9223372036854775808, 5), (2, -9223372036854775808), (9223372036854775807, 1)]))      # refused: the object stays unusable
             ops += ['exec 0 0 0', 'snap'] + (['ostat 0'] if n else [])
+            mn, mx = cfgpair()
+            ops.append('relife %d %d' % (mn, mx))
+            prev_n = 0
+        elif rng.random() < 0.3:
+            # round 7: the k-th thread creation inside THIS initialize() fails (EAGAIN): k-1 workers exist, initialize() must stop and
+            # join them itself and refuse (model: reinitF; the replay takes initialize(k-1, max(k-1,1)) + cleanup()); the object stays
+            # usable: refused calls in between, then an accepted initialize()
+            fmn = rng.randrange(1, 5); fmx = fmn + rng.randrange(0, 3); k = rng.randrange(1, fmn + 1)
+            ops += ['failspawn %d' % k, 'relife %d %d' % (fmn, fmx)]
+            ops += rng.choice([[], ['exec 0 0 0'], ['exec 0 1 0', 'snap'], ['snap']]) + (['ostat %d' % rng.randrange(n)] if n and rng.random() < 0.5 else [])
+            if rng.random() < 0.25: ops += ['failspawn 1', 'relife 1 %d' % rng.randrange(1, 4)]
             mn, mx = cfgpair()
             ops.append('relife %d %d' % (mn, mx))
             prev_n = 0
